@@ -34,11 +34,20 @@ type cfg struct {
 	armored bool
 	step    int // 0 = single write
 	party   string
+	copy    bool // hand the plaintext over with io.Copy from a plain source (uses the writer's ReadFrom if it has one)
 }
 
 func (c cfg) String() string {
-	return fmt.Sprintf("size=%d armor=%v step=%d to=%s", c.size, c.armored, c.step, c.party)
+	s := fmt.Sprintf("size=%d armor=%v step=%d to=%s", c.size, c.armored, c.step, c.party)
+	if c.copy {
+		s += " via=io.Copy"
+	}
+	return s
 }
+
+type plainSource struct{ r io.Reader }
+
+func (p plainSource) Read(b []byte) (int, error) { return p.r.Read(b) }
 
 type fault struct {
 	atCall  int // -1 = by byte
@@ -79,6 +88,25 @@ func runEncrypt(c cfg, pt []byte, dst io.Writer, stopAtError bool) (firstErr str
 	}
 	if w == nil {
 		return "Encrypt", errors.New("nil writer with nil error")
+	}
+	if c.copy {
+		n, e := io.Copy(w, plainSource{bytes.NewReader(pt)})
+		note("io.Copy", e)
+		if e == nil && n != int64(len(pt)) {
+			note("io.Copy", fmt.Errorf("short copy %d/%d with nil error", n, len(pt)))
+		}
+		if e != nil && stopAtError {
+			return
+		}
+		e = w.Close()
+		note("Close", e)
+		if e != nil && stopAtError {
+			return
+		}
+		if aw != nil {
+			note("armor.Close", aw.Close())
+		}
+		return
 	}
 	p := pt
 	k := 0
@@ -170,6 +198,11 @@ func dstSide(r *mon.Run) {
 				}
 				cfgs = append(cfgs, cfg{size: s, armored: arm, step: step, party: party})
 			}
+		}
+	}
+	for _, sz := range []int{100, 65536, 131073} {
+		for _, arm := range []bool{false, true} {
+			cfgs = append(cfgs, cfg{size: sz, armored: arm, party: "X1", copy: true})
 		}
 	}
 	if r.Thorough() {
